@@ -19,7 +19,7 @@ func c07Run(c *fw.Ctx) {
 	}
 	r := c.R
 	st := time.Now()
-	gs := compileCandidates(c, n, n*25, func(i int) (*gram.PGrammar, int, bool) {
+	gs := compileCandidates(c, n, n*25, func(i, accepted int) (*gram.PGrammar, int, bool) {
 		var pg *gram.PGrammar
 		if i%3 == 2 {
 			pg = gram.RandCFG(r)
